@@ -420,12 +420,68 @@ class C12(Check):
         simrt.prepare([F])
         self.dir = tempfile.mkdtemp(prefix='c12-')
         self.r = Runner(F, os.path.join(self.dir, 'm.lock'))
+        from vf.props import flock as _flock
+        self._flock = _flock
+        self.ch = _flock.FlockHarness(F, os.path.join(self.dir, 'conc.lock'))
+
+    def run_concurrent(self, case):
+        """The same contract under line-level interleavings of 2-4 threads (C02's scenarios): once every thread
+        has released what it acquired, nothing may be left behind - no holder flag, no descriptor, and every
+        object (and a fresh one) must be acquirable at the first non-blocking attempt."""
+        rng = random.Random(case['seed'])
+        scen = self._flock.gen(rng)
+        k = rng.random()
+        if k < 0.6:
+            strat = simrt.Strategy('random', rng.choice([0.05, 0.2, 0.5]), seed=rng.randrange(1 << 30))
+        elif k < 0.8:
+            strat = simrt.Strategy('pct', d=3, span=rng.choice([100, 300, 800]), seed=rng.randrange(1 << 30))
+        else:
+            strat = simrt.Strategy('stall', p=rng.choice([0.0, 0.15]), thread=f'W{rng.randrange(len(scen["threads"]))}',
+                                   k=rng.randrange(1, 120), seed=rng.randrange(1 << 30))
+        r = self.ch.run(scen, strat, probes=True)
+        res = CaseResult()
+        st = res.stats
+        res.sig = r.signature
+        if r.verdict == 'watchdog' or not r.clean:
+            res.dirty = True
+        if r.verdict == 'watchdog':
+            res.inconclusive = 'wall-clock watchdog'
+            return res
+        if r.thread_errors:
+            res.inconclusive = 'thread error: ' + repr(r.thread_errors[:2])
+            return res
+        st['executions'] += 1
+        st['kind_concurrent'] += 1
+        what = {'scenario': scen, 'strategy': strat.describe()}
+        if r.verdict is not None:
+            res.violate('C12:blocks-although-free', f'{r.verdict} under concurrent use: an acquire never returned although '
+                        'every holder releases', blocked=r.blocked, **what)
+        for e in r.log:
+            if e[0] == 'all_released':
+                if any(e[1]):
+                    res.violate('C12:is_locked', 'an object still reports is_locked after every thread released', flags=e[1], **what)
+                if e[2] != 0:
+                    res.violate('C12:fd-census', 'descriptors still open after every thread released', open=e[2], **what)
+            elif e[0] == 'probe' and e[2] is not True:
+                res.violate('C12:not-acquirable-after-release', 'after everything was released a thread cannot acquire the lock',
+                            obj=e[1], got=repr(e[2]), **what)
+            elif e[0] == 'final_fds' and e[1] != 0:
+                res.violate('C12:fd-census', 'descriptors left open at the end', open=e[1], **what)
+        contended = any(e[0] == 'refused' for e in r.log)
+        res.nontrivial = contended
+        if contended:
+            st['nontrivial'] += 1
+            st['concurrent_contended'] += 1
+            res.sample = {'kind': 'concurrent', 'scenario': scen, 'log': r.log[:40]}
+        if res.violations:
+            res.sample = {'kind': 'concurrent', 'scenario': scen, 'log': r.log[-40:], 'switches': r.sched.switches[-12:]}
+        return res
 
     PLAN = {
         'quick': {'len': 3, 'trans_depth': 6, 'fault_len': 2, 'fault_sample3': 600, 'pairs_len': 0,
-                  'random': 3000, 'pair_sample': 150},
+                  'random': 3000, 'pair_sample': 150, 'concurrent': 8000},
         'thorough': {'len': 4, 'trans_depth': 6, 'fault_len': 3, 'fault_sample3': 0, 'pairs_len': 2,
-                     'random': 60000, 'pair_sample': 3000, 'len5_sample': 150000},
+                     'random': 60000, 'pair_sample': 3000, 'len5_sample': 150000, 'concurrent': 250000},
     }
 
     def cases(self, tier, seed):
@@ -454,11 +510,15 @@ class C12(Check):
         for i in range(p['pair_sample']):
             ci = rng.randrange(len(CONFIGS))
             yield {'cfg': ci, 'seq': random_sequence(rng, CONFIGS[ci], rng.randrange(2, 6)), 'kind': 'fault2'}
+        for i in range(p['concurrent']):
+            yield {'kind': 'concurrent', 'seed': (seed << 32) + i}
         for i in range(p.get('len5_sample', 0)):
             ci = rng.randrange(len(CONFIGS))
             yield {'cfg': ci, 'seq': random_sequence(rng, CONFIGS[ci], 5), 'kind': 'random'}
 
     def run_case(self, case):
+        if case['kind'] == 'concurrent':
+            return self.run_concurrent(case)
         cfg = CONFIGS[case['cfg']]
         seq = [tuple(a) for a in case['seq']]
         res = CaseResult()
@@ -535,7 +595,7 @@ class C12(Check):
         return {'nontrivial': 5000 if q else 100000, 'faults_fired': 1000 if q else 30000,
                 'fault_fired_open': 100, 'fault_fired_lock': 100, 'fault_fired_unlock': 100,
                 'fault_fired_close': 100, 'seen_forced_at_depth': 50, 'seen_release_unheld': 100,
-                'seen_refused': 1000, 'seen_nested': 500}
+                'seen_refused': 1000, 'seen_nested': 500, 'concurrent_contended': 2500 if q else 60000}
 
     def extra_evidence(self, tier, agg):
         out = {}
